@@ -3,7 +3,7 @@ import random
 import traceback
 import numpy as np
 
-from harness import circgen as cg, logicsim_corr as lc, simcheck as sk, wavecheck as wk, waveoracle as wo, wavesim_corr as wc
+from harness import circgen as cg, logicsim_corr as lc, simcheck as sk, wavecheck as wk, waveoracle as wo, wavesim_corr as wc, launch_corr
 
 THEOREMS = ['C06_gpu_threads_cover', 'C06_lane_independent', 'C06_release_order_irrelevant', 'C06_strip_forks_irrelevant']
 COLS = [3, 4, 5, 6, 7, 10]
@@ -187,6 +187,49 @@ def wave_paths(rng, k=None):
     return desc, None
 
 
+def wave_wide(rng, k=None):
+    """CPU and GPU code paths with MORE lanes than one thread block covers (block = 32 x 16), over two clock cycles with the
+    state transfer s_ppo_to_ppi in between: every s row and the waveform memory must agree after every step."""
+    import io, contextlib
+    from kyupy import wave_sim
+    if k is None:
+        k = wk.gen_wave_case(rng, sims=rng.choice([33, 40, 48, 49, 64, 65]), n_gates=rng.choice([2, 3, 5, 8]), seq=True, allow_unconnected=True, p_nodata=rng.choice([0.08, 0.5]),
+                             capmode=rng.choice(['4', '8', 'vec']), reuse=rng.random() < 0.5)
+        k.tcap = rng.choice([None, 6, 9])
+    desc = dict(wk.describe(k), kind='wavewide')
+    sims = []
+    for cuda in (False, True):
+        cls = wave_sim.WaveSimCuda if cuda else wave_sim.WaveSim
+        with contextlib.redirect_stdout(io.StringIO()):
+            w = cls(k.c, k.delays, sims=k.sims, c_caps=k.caps, c_reuse=k.reuse, strip_forks=k.strip)
+            w.simctl_int[1] = 0 if k.delays.ndim == 4 and len(k.delays) > 1 else w.simctl_int[1]
+            w.s[0], w.s[1], w.s[2] = k.s0, k.s1, k.s2
+        sims.append(w)
+    tc = wave_sim.TMAX if k.tcap is None else k.tcap
+    for step, call in enumerate(['s_to_c', 'c_prop', 'c_to_s', 's_ppo_to_ppi', 's_to_c', 'c_prop', 'c_to_s']):
+        for w in sims:
+            with contextlib.redirect_stdout(io.StringIO()):
+                if call == 'c_to_s':
+                    w.c_to_s(time=tc)
+                elif call == 's_ppo_to_ppi':
+                    w.s_ppo_to_ppi(time=1.0)
+                else:
+                    getattr(w, call)()
+        a, b = np.asarray(sims[0].s).copy(), np.asarray(sims[1].s).copy()
+        # stimulus rows 0..2 matter only where a PI/PPI slot exists (the CPU transfer also rewrites the rows of state elements
+        # without any output line, the GPU kernel skips them: neither is ever read)
+        unused = np.ones(a.shape[1], dtype=bool)
+        unused[np.asarray(sims[0].pippi_s_locs)] = False
+        a[0:3, unused], b[0:3, unused] = 0, 0
+        if not np.array_equal(a, b, equal_nan=True):
+            row, p, l = np.argwhere(~((a == b) | (np.isnan(a) & np.isnan(b))))[0]
+            return desc, f'after step {step} ({call}) with {k.sims} lanes: WaveSimCuda s[{row}] position {p} lane {l} = {b[row, p, l]}, WaveSim gives {a[row, p, l]}'
+        if not k.reuse and not np.array_equal(np.asarray(sims[0].c), np.asarray(sims[1].c)):
+            l = int(np.argwhere(np.asarray(sims[0].c) != np.asarray(sims[1].c))[0][1])
+            return desc, f'after step {step} ({call}) with {k.sims} lanes: waveform memory of lane {l} differs between WaveSimCuda and WaveSim'
+    return desc, None
+
+
 def run(ck):
     if THEOREMS:
         ck.prove('C06', THEOREMS)
@@ -227,6 +270,17 @@ def run(ck):
         ck.nontrivial(('p', i))
         if what:
             fails.append((desc, what))
+    for i in range(ck.scale(8, 200)):
+        try:
+            desc, what = wave_wide(rng)
+        except Exception:
+            desc, what = {'kind': 'wavewide'}, 'raises ' + traceback.format_exc()[-500:]
+        ck.count(1, 'wave-cpu-gpu-wide-multicycle-sets')
+        ck.nontrivial(('x', i))
+        if what:
+            fails.append((desc, what))
+    # the launcher model that C06_gpu_threads_cover is about = the real MockCuda launcher
+    lfails = launch_corr.run(ck, rng, ck.scale(24, 200))
     keyof = lambda d: 'options:' + d.get('kind', '?') + (':' + d['class'] if 'class' in d else '')
     unknown = [f for f in fails if ck.known_entry(keyof(f[0])) is None]
     ck.obligation('option / lane / code-path invariance holds on every generated configuration set (listed known findings excepted)',
@@ -238,6 +292,8 @@ def run(ck):
              'correspondence for every option setting')
     for desc, what in fails[:5]:
         ck.fail(keyof(desc), what, {'component': 'SimOps / LogicSim / WaveSim / WaveSimCuda options', 'input': desc, 'actual': what})
+    for key, what, rp in lfails[:3]:
+        ck.fail(key, what, dict(rp, actual=what))
 
 
 def replay(rp):
@@ -249,6 +305,20 @@ def replay(rp):
         except Exception:
             return True
         return what is not None
+    if inp.get('kind') == 'wavewide' and 'circuit' in inp:
+        try:
+            desc, what = wave_wide(random.Random(0), wk.from_description(inp))
+        except Exception:
+            return True
+        return what is not None
+    if inp.get('kind') in ('launch', 'threads'):
+        from harness import launch_corr as lcr
+        if inp['kind'] == 'launch':
+            (gx, gy), (bx, by) = inp['grid'], inp['block']
+            return lcr.trace_launch(gx, gy, bx, by) != [(g_x * bx + b_x, g_y * by + b_y) for g_x in range(gx) for g_y in range(gy) for b_x in range(bx) for b_y in range(by)]
+        X, Y, (bx, by) = inp['X'], inp['Y'], inp['block']
+        got = [q for q in lcr.trace_launch(-(X // -bx), -(Y // -by), bx, by) if q[0] < X and q[1] < Y]
+        return sorted(got) != [(x, y) for x in range(X) for y in range(Y)]
     if inp.get('kind') == 'wavepath' and 'circuit' in inp:
         try:
             desc, what = wave_paths(random.Random(0), wk.from_description(inp))
